@@ -188,7 +188,7 @@ def worker_main(args):
 
     result = {"shard": args.shard, "mode": args.mode}
     if args.mode == "regress":
-        result["regress"] = regress(mod, ctx)
+        result["regress"] = regress(mod, ctx, args.out)
     else:
         # deterministic extra cases (corpora, exhaustive sub-domains)
         if hasattr(mod, "extra_cases"):
@@ -227,7 +227,7 @@ def worker_main(args):
     return 0
 
 
-def regress(mod, ctx):
+def regress(mod, ctx, out=None):
     """replay committed regression inputs and known-finding reproductions"""
     d = os.path.join(ROOT, "regressions", mod.ID)
     res = []
@@ -239,6 +239,9 @@ def regress(mod, ctx):
         with open(os.path.join(d, name)) as fd:
             rec = json.load(fd)
         case = rec["case"]
+        if out:
+            with open(out + ".last", "w") as fd:   # survives a crash or a hang of this process
+                json.dump(case, fd)
         sub = Ctx(record=False)
         observations = run_case_env(mod, case, sub)
         unknown, known = split_observations(mod.ID, case, observations, ctx)
